@@ -95,7 +95,7 @@ func (module *KafkaClient) Configure(name, configRoot string) {
 	module.running = sync.WaitGroup{}
 
 	module.cluster = viper.GetString(configRoot + ".cluster")
-	if !viper.IsSet("cluster." + module.cluster) {
+	if !helpers.IsConfiguredEntry("cluster", module.cluster) {
 		panic("Consumer '" + name + "' references an unknown cluster '" + module.cluster + "'")
 	}
 
